@@ -109,13 +109,14 @@ def do_edit(cp, e):
     raise ValueError(name)
 
 
-def built_canon(root):
+def built_canon(root, sort_dicts=False):
   try:
     r = fdl.build(root)
   except Exception as e:  # pylint: disable=broad-except
     return 'raise:' + type(e).__name__
-  hp, rv = H.project(r)
-  return [hp, rv]
+  p = H.Projector(sort_dicts=sort_dicts)
+  rv = p.val(r)
+  return [p.heap, rv]
 
 
 def check_line(rec):
